@@ -581,7 +581,18 @@ Proof.
   destruct pe.
   - intro H. right. split.
     + rewrite (Hcont _ H). destruct (seq_gt _ _); vsimpl; reflexivity.
-    + eauto.
+    + (* (repair of D6) the flag handed to the pop is `expired && not local-fin`; a pop that gave the probe up had it true *)
+      destruct (timer_expired (v_t_retransmit s1) (v_now s1)) eqn:Ete.
+      * destruct (is_local_fin_or_later (v_state s1)); cbn [andb negb] in Epop.
+        -- exfalso. unfold pop_expired_mtu_probe in Epop.
+           destruct (last_and_init _) as [[init x]|]; [|inversion Epop].
+           destruct (sg_delivered x); [inversion Epop|]. cbn [andb] in Epop.
+           destruct (sg_probe x); inversion Epop.
+        -- rewrite <- Ete in Epop. eauto.
+      * exfalso. cbn [andb] in Epop. unfold pop_expired_mtu_probe in Epop.
+        destruct (last_and_init _) as [[init x]|]; [|inversion Epop].
+        destruct (sg_delivered x); [inversion Epop|]. cbn [andb] in Epop.
+        destruct (sg_probe x); inversion Epop.
   - cbn [step_st]. intro H; injection H as <-. left; exact H1.
   - intro H. left. rewrite (Hcont _ H). exact H1.
 Qed.
